@@ -547,6 +547,8 @@ class ExprMixin:
             c, owner = self.find_const(o.name, attr)
             if c is not None:
                 return self.eval(c, {}, owner)
+            if attr in self.abstract:  # Class.method(...) of a method under an assumed/separately proved contract
+                return Closure(None, None, None, ("abstract", attr))
             fn, owner = self.find_method(o.name, attr)
             if fn is not None:
                 return Closure(fn, None, owner, "static")
